@@ -48,6 +48,7 @@ type convWorld struct {
 
 	midBlock *gatedBlock // observation ops process_mid_hold / process_mid_release
 	midDone  chan error
+	injDone  chan struct{}
 
 	best  []int64
 	sh    bool
@@ -268,6 +269,10 @@ func (w *convWorld) midRelease() int64 {
 	}
 	err := <-w.midDone
 	w.midBlock, w.midDone = nil, nil
+	if w.injDone != nil {
+		<-w.injDone
+		w.injDone = nil
+	}
 	w.f.rec.take()
 	w.f.drainOutgoing()
 	if err != nil {
@@ -752,8 +757,19 @@ func runConverge(c *Case) ([]Obs, any) {
 				return w.frame(OK, []int64{w.midHold()})
 			case "inject_headers":
 				// OBSERVATION op: a headers message with these blocks straight into the real headers handler
-				code, p := w.nodeHeaders(op.Ints(0))
-				return w.frame(code, p)
+				// in a goroutine; the op returns when the handler has returned or after 300 ms (payload 1: the
+				// handler is still waiting, e.g. for a lock held by the block in process_mid_hold; it is
+				// awaited by process_mid_release)
+				ids := op.Ints(0)
+				done := make(chan struct{})
+				go func() { w.nodeHeaders(ids); close(done) }()
+				select {
+				case <-done:
+					return w.frame(OK, []int64{0})
+				case <-time.After(300 * time.Millisecond):
+					w.injDone = done
+					return w.frame(OK, []int64{1})
+				}
 			case "process_mid_release":
 				return w.frame(OK, []int64{w.midRelease()})
 			case "process_release":
